@@ -1,63 +1,15 @@
-(** C09 – the binary64 instances of the generic estimator model (Estimator.v) and the
-    correspondence checker used by the harness shards.  Definitions only. *)
+(** C09 – the primitive-float binary64 instance of the generic estimator model (Estimator.v; the
+    Flocq instance [FL] is defined there) and the correspondence checker used by the harness
+    shards.  Definitions only. *)
 From IndModel Require Export Base Estimator.
 From IndGen Require Import Constants.
 From Coq Require Floats.
 From Flocq Require Core.Raux IEEE754.BinarySingleNaN IEEE754.Binary IEEE754.Bits IEEE754.PrimFloat.
 Open Scope N_scope.
 
-(** * binary64 instances: [powf] is DATA – a table (exponent bits -> result bits) filled by the
-    harness with what [0.1_f64.powf(x)] returned on this machine.  A missing entry yields -1.0,
-    which no genuine weight can be, so the comparison fails loudly. *)
-Definition NAN_BITS : N := 9221120237041090560.       (* 0x7FF8_0000_0000_0000, canonical quiet NaN *)
-Fixpoint table_find (k : N) (t : list (N * N)) : option N :=
-  match t with
-  | [] => None
-  | (a, w) :: r => if a =? k then Some w else table_find k r
-  end.
-
-Module FL.   (* Flocq, pure Gallina *)
-  Import Flocq.IEEE754.BinarySingleNaN.
-  Definition F := binary_float 53 1024.
-  Definition Hp : Flocq.Core.FLX.Prec_gt_0 53 := eq_refl.
-  Definition Hm : Prec_lt_emax 53 1024 := eq_refl.
-  Definition of_Z (z : Z) (szero : bool) : F :=
-    binary_normalize 53 1024 Hp Hm mode_NE z 0 szero.
-  Definition of_bits (b : N) : F :=
-    Flocq.IEEE754.Binary.B2BSN 53 1024 (Flocq.IEEE754.Bits.b64_of_bits (Z.of_N b)).
-  Definition to_bits (x : F) : N :=
-    if is_nan x then NAN_BITS
-    else Z.to_N (Flocq.IEEE754.Bits.bits_of_b64
-                   (Flocq.IEEE754.Binary.BSN2B 53 1024 Flocq.IEEE754.Bits.default_nan_pl64 x)).
-  Definition ftrunc (x : F) : F :=
-    match x with
-    | B754_finite s m e _ => if (0 <=? e)%Z then x else of_Z (Btrunc x) s
-    | _ => x
-    end.
-  (* Rust float->unsigned `as`: NaN -> 0, negative -> 0, too large / +inf -> MAX, else truncate *)
-  Definition fcast (max : N) (x : F) : N :=
-    match x with
-    | B754_nan => 0
-    | B754_zero _ => 0
-    | B754_infinity s => if s then 0 else max
-    | B754_finite s _ _ _ => if s then 0 else N.min max (Z.to_N (Btrunc x))
-    end.
-  Definition fis_zero (x : F) : bool := match x with B754_zero _ => true | _ => false end.
-  Definition minus_one : F := of_Z (-1) false.
-  Definition fpow (tbl : list (N * N)) (x : F) : F :=
-    match table_find (to_bits x) tbl with Some w => of_bits w | None => minus_one end.
-  Definition ar (tbl : list (N * N)) : arith := {|
-    T := F;
-    of_int := fun n => of_Z (Z.of_N n) false;
-    add := @Bplus 53 1024 Hp Hm mode_NE; sub := @Bminus 53 1024 Hp Hm mode_NE;
-    mul := @Bmult 53 1024 Hp Hm mode_NE; div := @Bdiv 53 1024 Hp Hm mode_NE;
-    pow_base := fpow tbl;
-    is_zero := fis_zero;
-    trunc := ftrunc;
-    cast := fcast
-  |}.
-End FL.
-
+(** * The primitive-float binary64 instance.  [powf] is DATA (see [FL] in Estimator.v): a table
+    (exponent bits -> result bits) filled by the harness with what [0.1_f64.powf(x)] returned on
+    this machine; a missing entry yields -1.0, so the comparison fails loudly. *)
 Module PF.   (* Coq primitive floats: hardware binary64 through the kernel *)
   Definition F := Coq.Floats.PrimFloat.float.
   Definition of_fl (x : FL.F) : F := Flocq.IEEE754.PrimFloat.B2Prim x.
@@ -97,28 +49,9 @@ Module Lit.
 End Lit.
 Export Lit.
 
-Definition obs_bits : Type := (N * option N * option N * N)%type.
+(** [obs_bits], [est_case]'s observation part, [run_obs] and [table_ok] are defined in Estimator.v (after [FL]). *)
 Definition est_case : Type :=
   (bool * option N * N * list eop * list (N * N) * list obs_bits)%type.
-
-Definition obs_eqb (a b : obs_bits) : bool :=
-  let '(p1, e1, d1, l1) := a in
-  let '(p2, e2, d2, l2) := b in
-  (p1 =? p2) && option_eqb N.eqb e1 e2 && option_eqb N.eqb d1 d2 && (l1 =? l2).
-
-Definition run_obs (A : arith) (to_bits : T A -> N) (len0 : option N) (t0 : N) (ops : list eop)
-  : list obs_bits :=
-  let '(_, _, os) := bar_run A ops t0 (bar_new A len0 t0) in
-  map (fun o : obs A => let '(p, e, d, l) := o in (to_bits p, e, d, l)) os.
-
-(** sanity of the supplied powf data: 0.1^x in [0,1] for x >= 0, = 1 at x = 0 and < 1 for
-    every positive exponent that occurred (this is the float-level counterpart of the
-    "denominator 1 - W(t) > 0" theorem) *)
-Definition ONE_BITS : N := 4607182418800017408.   (* 1.0 *)
-Definition INF_BITS : N := 9218868437227405312.   (* +inf; larger patterns are NaN or negative *)
-Definition table_ok (t : list (N * N)) : bool :=
-  forallb (fun aw : N * N => let '(a, w) := aw in
-     (a <=? INF_BITS) && (w <=? ONE_BITS) && (if a =? 0 then w =? ONE_BITS else w <? ONE_BITS)) t.
 
 Definition est_check (c : est_case) : bool :=
   let '(use_flocq, len0, t0, ops, tbl, observed) := c in
